@@ -1130,7 +1130,38 @@ class Engine:
             return ("adt", v[1], v[2], tuple((k, self.snapshot(st, x, depth + 1)) for k, x in v[3]))
         if v[0] == "closure":
             return ("closure", v[1], tuple(self.snapshot(st, x, depth + 1) for x in v[2]))
+        if v[0] == "app":
+            return ("app", v[1], tuple(self.snapshot(st, x, depth + 1) for x in v[2]))
         return v
+
+    # -------------------------------------------------------------- closures
+    def closure_env(self, st, closure_body, captures):
+        """build the first argument of a closure body from capture values (given as plain values);
+        captures used through a dereference in the body are passed by reference"""
+        byref = set()
+        for d in closure_body.debug:
+            v = d["v"]
+            if "l" in v and v["l"] == 1:
+                ps = v["p"]
+                for i, pe in enumerate(ps):
+                    if pe["k"] == "field":
+                        if any(q["k"] == "deref" for q in ps[i + 1:]):
+                            byref.add(pe["i"])
+                        break
+        # also scan the body for (*_1.i) uses
+        for _, _, s_ in closure_body.statements():
+            pass
+        vals = []
+        for i, c in enumerate(captures):
+            if i in byref and c[0] != "ref":
+                vals.append(("ref", st.new_cell(c), ()))
+            else:
+                vals.append(c)
+        clo = ("closure", closure_body.path, tuple(vals))
+        first_ty = closure_body.locals[1]["ty"]
+        if first_ty.get("k") == "ref":
+            return ("ref", st.new_cell(clo), ())
+        return clo
 
 
 DIVERGE = object()
